@@ -9,7 +9,7 @@
 (* to when it says TRUE) and writes the headers and some silent audio      *)
 (* packets as <<value, bits>> lists.                                       *)
 (***************************************************************************)
-EXTENDS AudioPacket, SetupParse, TLC, Json
+EXTENDS AudioPacket, AudioRead, TLC, Json
 CONSTANTS Family        \* "sizes" | "shapes" | "mutations"
 VARIABLES c, done, cw, cwt      \* cw / cwt: the codeword tables of the books of the case and of its twin, computed once per case (TLC would re-derive them at every codeword otherwise)
 vars == <<c, done, cw, cwt>>
@@ -210,6 +210,18 @@ ReaderInvertsWriter == LET r == ReadSetup(PackBytes(SetupFields(c.s)), IdRec(c.s
                        /\ (Family \in {"sizes", "shapes", "residue"} => r.ok /\ r.s = Norm(c.s))
                        /\ (SetupOK(c.s) => r.ok /\ r.s = Norm(c.s))
                        /\ ReadId(PackBytes(IdFields(c.s))).ok = (c.s.ch \in 0..255 /\ c.s.e0 \in 0..15 /\ c.s.e1 \in 0..15 /\ c.s.rate >= 0)
+\* the strict audio reader inverts the packet writer: on the wire image of every generated packet it finds exactly the bits that were written, the same
+\* mode and window flags, and the same channels with a floor in use
+PktArgs == << <<0, 0, 0, 1>>, <<1, 0, 1, 2>>, <<1, 1, 0, 3>>, <<0, 0, 0, 4>>, <<0, 0, 0, 5>> >>
+AudioReaderInvertsWriter ==
+  Family = "residue" =>
+    LET s == c.s @@ [cw |-> cw]  cms == [b \in 1..Len(c.s.books) |-> CwMap(c.s.books[b].lens)]  fls == Fls(c) IN
+    \A k \in 1..5 :
+      LET a == PktArgs[k]  fields == FullPacket(s, a[1], a[2], a[3], a[4], fls[k])
+          r == ReadAudio(c.s, cms, PackBytes(fields)) IN
+      /\ r.ok /\ r.bits = FoldFunction(LAMBDA x, y : x + y, 0, [i \in 1..Len(fields) |-> fields[i][2]])
+      /\ r.mode = a[1] /\ r.lw = (IF c.s.modes[a[1] + 1].bf = 1 THEN a[2] ELSE 0) /\ r.nw = (IF c.s.modes[a[1] + 1].bf = 1 THEN a[3] ELSE 0)
+      /\ r.used = [ch \in 1..c.s.ch |-> fls[k][ch] = 1]
 FamiliesOK == (Family \in {"sizes", "shapes", "residue"} => SetupOK(c.s))
 Export == done => PrintT("CASE " \o ToJson([name |-> c.name, res |-> IF Len(c.s.residues) >= 1 THEN <<c.s.residues[1].type, c.s.residues[1].psize, c.s.residues[1].begin>> ELSE <<>>, ok |-> SetupOK(c.s), idok |-> IdOK(c.s), ch |-> c.s.ch, e0 |-> c.s.e0, e1 |-> c.s.e1, id |-> IdFields(c.s), setup |-> SetupFields(c.s), audio |-> Audio(c.s),
                                               twin |-> IF Family = "residue" THEN [ok |-> SetupOK(Twin(c.s)), setup |-> SetupFields(Twin(c.s)), audio |-> IF SetupOK(Twin(c.s)) THEN TwinAudio(Twin(c.s), Fls(c)) ELSE <<>>] ELSE [ok |-> FALSE, setup |-> <<>>, audio |-> <<>>]]))
